@@ -42,6 +42,8 @@ impl Default for ApplyOptions {
 pub struct ApplyState {
     content_edits_applied: Vec<PathBuf>,
     renames_performed: Vec<(PathBuf, PathBuf)>,
+    /// The renames exactly as they were executed on disk (used by rollback)
+    renames_executed: Vec<(PathBuf, PathBuf)>,
     log_file: Option<File>,
 }
 
@@ -60,6 +62,7 @@ impl ApplyState {
         Ok(Self {
             content_edits_applied: Vec::new(),
             renames_performed: Vec::new(),
+            renames_executed: Vec::new(),
             log_file,
         })
     }
@@ -506,6 +509,9 @@ fn perform_rename(from: &Path, to: &Path, _is_dir: bool, state: &mut ApplyState)
     state
         .renames_performed
         .push((from.to_path_buf(), to.to_path_buf()));
+    state
+        .renames_executed
+        .push((from.to_path_buf(), to.to_path_buf()));
     state.log(&format!(
         "Successfully renamed {} -> {}",
         from.display(),
@@ -521,8 +527,9 @@ fn rollback(state: &mut ApplyState) -> Result<()> {
 
     let mut errors = Vec::new();
 
-    // Revert renames in reverse order
-    let renames_to_revert: Vec<_> = state.renames_performed.iter().rev().cloned().collect();
+    // Revert renames in reverse order, using the paths they were executed with
+    // (a rename inside an already renamed directory has to be undone at its adjusted location)
+    let renames_to_revert: Vec<_> = state.renames_executed.iter().rev().cloned().collect();
     for (from, to) in renames_to_revert {
         state.log(&format!(
             "Reverting rename: {} -> {}",
